@@ -19,19 +19,50 @@ Notation EL f := (run_line_of shs (exec_pipe ext file_text n f)).
 
 Lemma exec_pipe_S f w line :
   exec_pipe ext file_text n (S f) w line =
-  let '(cmd, rest) := first_word line in
-  if str_eqb line s_set_e then (mk_shs true (s_funcs w) (s_log w), 0%Z)
-  else if str_eqb cmd s_source then run_script ext file_text n f w (trim rest)
-  else
-    match get_func cmd (s_funcs w) with
-    | Some body =>
-        match run_lines shs (EL f) no_words no_setvar s_eoe n body w with
-        | Some (Done w1 crs _ _) => (w1, func_call_status crs)
-        | _ => (w, 0%Z)
+  match cmd_words line with
+  | [] => (w, 0%Z)
+  | cmd :: args =>
+      if str_eqb cmd [115; 101; 116] && match args with [a] => str_eqb a [45; 101] | _ => false end
+      then (mk_shs true (s_funcs w) (s_log w), 0%Z)
+      else if str_eqb cmd s_source then
+        match args with
+        | path :: _ => run_script ext file_text n f w path
+        | [] => (w, 0%Z)
         end
-    | None => (mk_shs (s_eoe w) (s_funcs w) (s_log w ++ [line]), ext line)
-    end.
+      else
+        match get_func cmd (s_funcs w) with
+        | Some body =>
+            match run_lines shs (EL f) no_words no_setvar s_eoe n body w with
+            | Some (Done w1 crs _ _) => (w1, func_call_status crs)
+            | _ => (w, 0%Z)
+            end
+        | None => (mk_shs (s_eoe w) (s_funcs w) (s_log w ++ [line]), ext line)
+        end
+  end.
 Proof. reflexivity. Qed.
+
+(** the line is a shell command (set -e, source, a defined function), judged on its words without redirections *)
+Definition is_shell_words (w : shs) (ws : list str) : bool :=
+  match ws with
+  | [] => true
+  | cmd :: args =>
+      (str_eqb cmd [115; 101; 116] && match args with [a] => str_eqb a [45; 101] | _ => false end)
+      || str_eqb cmd s_source
+      || match get_func cmd (s_funcs w) with Some _ => true | None => false end
+  end.
+
+(** an output redirection on a `set -e` / `source` / function-call line changes nothing: such a line is
+    executed according to its words without the redirections only *)
+Theorem pipe_redirection_irrelevant : forall fuel w l1 l2,
+  cmd_words l1 = cmd_words l2 -> is_shell_words w (cmd_words l1) = true ->
+  exec_pipe ext file_text n fuel w l1 = exec_pipe ext file_text n fuel w l2.
+Proof.
+  intros [|f] w l1 l2 H Hs; [reflexivity|]. rewrite !exec_pipe_S. rewrite H in *.
+  destruct (cmd_words l2) as [|cmd args]; [reflexivity|]. cbn [is_shell_words] in Hs.
+  destruct (str_eqb cmd [115; 101; 116] && match args with [a] => str_eqb a [45; 101] | _ => false end); [reflexivity|].
+  destruct (str_eqb cmd s_source); [reflexivity|].
+  destruct (get_func cmd (s_funcs w)); [reflexivity|discriminate Hs].
+Qed.
 
 Lemma run_script_S f w path :
   run_script ext file_text n (S f) w path =
@@ -76,9 +107,9 @@ Proof.
   - assert (IHl : forall w l, flag_on w -> flag_on (fst (EL f w l))) by (apply run_line_of_pres, IHe).
     split.
     + intros w l Hw. rewrite exec_pipe_S.
-      destruct (first_word l) as [cmd rest].
-      destruct (str_eqb l s_set_e); [reflexivity|].
-      destruct (str_eqb cmd s_source); [apply IHs, Hw|].
+      destruct (cmd_words l) as [|cmd args]; [exact Hw|].
+      destruct (str_eqb cmd [115; 101; 116] && match args with [a] => str_eqb a [45; 101] | _ => false end); [reflexivity|].
+      destruct (str_eqb cmd s_source); [destruct args; [exact Hw | apply IHs, Hw]|].
       destruct (get_func cmd (s_funcs w)) as [body|]; [|exact Hw].
       pose proof (run_lines_pres shs (EL f) no_words no_setvar s_eoe n flag_on
                     IHl (fun w _ H => H) (fun w _ _ H => H) body w Hw) as Hk.
